@@ -151,10 +151,72 @@ func buildTree(spec plan.Tree, docs map[string][]byte) (*treeInst, error) {
 		case "doc-only-text":
 			n = &html.Node{Type: html.DocumentNode}
 			n.AppendChild(&html.Node{Type: html.TextNode, Data: wordsText("dt", 40)})
+		case "odd-atom-mismatch":
+			// legal for a hand-built tree: DataAtom does not match Data
+			n = &html.Node{Type: html.ElementNode, Data: "div", DataAtom: atom.Span}
+			p := &html.Node{Type: html.ElementNode, Data: "p", DataAtom: 0}
+			p.AppendChild(&html.Node{Type: html.TextNode, Data: wordsText("am", 40)})
+			n.AppendChild(p)
+		case "odd-empty-data":
+			n = &html.Node{Type: html.ElementNode, Data: "", DataAtom: 0}
+			n.AppendChild(&html.Node{Type: html.TextNode, Data: wordsText("ed", 40)})
+			n.AppendChild(&html.Node{Type: html.ElementNode, Data: "", Attr: []html.Attribute{{Key: "", Val: ""}}})
+		case "odd-attr-namespaces":
+			n = &html.Node{Type: html.ElementNode, Data: "div", DataAtom: atom.Div, Attr: []html.Attribute{
+				{Namespace: "xlink", Key: "href", Val: "javascript:x"}, {Key: "class", Val: "a"}, {Key: "class", Val: "comment"}, {Key: "style", Val: "display:"}, {Key: "STYLE", Val: "DISPLAY:NONE"}, {Key: "id", Val: ""}}}
+			img := &html.Node{Type: html.ElementNode, Data: "img", DataAtom: atom.Img, Attr: []html.Attribute{{Key: "src", Val: "a.png"}, {Key: "src", Val: "b.png"}, {Namespace: "x", Key: "srcset", Val: ","}}}
+			p := &html.Node{Type: html.ElementNode, Data: "p", DataAtom: atom.P}
+			p.AppendChild(&html.Node{Type: html.TextNode, Data: wordsText("an", 60)})
+			n.AppendChild(p)
+			n.AppendChild(img)
+		case "odd-text-under-document":
+			n = &html.Node{Type: html.DocumentNode}
+			n.AppendChild(&html.Node{Type: html.TextNode, Data: wordsText("tu", 30)})
+			h := &html.Node{Type: html.ElementNode, Data: "html", DataAtom: atom.Html}
+			n.AppendChild(h)
+			h.AppendChild(&html.Node{Type: html.TextNode, Data: wordsText("th", 30)})
+			n.AppendChild(&html.Node{Type: html.CommentNode, Data: "after html"})
+		case "odd-many-siblings":
+			n = &html.Node{Type: html.ElementNode, Data: "div", DataAtom: atom.Div}
+			for i := 0; i < 3000; i++ {
+				p := &html.Node{Type: html.ElementNode, Data: "p", DataAtom: atom.P}
+				p.AppendChild(&html.Node{Type: html.TextNode, Data: "s" + strconv.Itoa(i) + " word word"})
+				n.AppendChild(p)
+			}
+		case "odd-foreign-parent":
+			// the root claims a parent and siblings that do not list it among their children
+			stranger := &html.Node{Type: html.ElementNode, Data: "section", DataAtom: atom.Section}
+			other := &html.Node{Type: html.ElementNode, Data: "p", DataAtom: atom.P}
+			stranger.AppendChild(other)
+			n = &html.Node{Type: html.ElementNode, Data: "span", DataAtom: atom.Span, Parent: stranger, PrevSibling: other}
+			n.AppendChild(&html.Node{Type: html.TextNode, Data: wordsText("fp", 40)})
+			ti.top = stranger
+		case "odd-raw-and-error-nodes":
+			n = &html.Node{Type: html.ElementNode, Data: "div", DataAtom: atom.Div}
+			n.AppendChild(&html.Node{Type: html.RawNode, Data: "<p>raw markup</p>"})
+			n.AppendChild(&html.Node{Type: html.ErrorNode})
+			n.AppendChild(&html.Node{Type: html.DoctypeNode, Data: "html"})
+			p := &html.Node{Type: html.ElementNode, Data: "p", DataAtom: atom.P}
+			p.AppendChild(&html.Node{Type: html.TextNode, Data: wordsText("rn", 40)})
+			n.AppendChild(p)
+		case "odd-nested-anchors":
+			n = &html.Node{Type: html.ElementNode, Data: "div", DataAtom: atom.Div}
+			a1 := &html.Node{Type: html.ElementNode, Data: "a", DataAtom: atom.A, Attr: []html.Attribute{{Key: "href", Val: "/p/2"}}}
+			a2 := &html.Node{Type: html.ElementNode, Data: "a", DataAtom: atom.A, Attr: []html.Attribute{{Key: "href", Val: "/p/3"}}}
+			a2.AppendChild(&html.Node{Type: html.TextNode, Data: "3"})
+			a1.AppendChild(&html.Node{Type: html.TextNode, Data: "2"})
+			a1.AppendChild(a2)
+			n.AppendChild(a1)
+			p := &html.Node{Type: html.ElementNode, Data: "p", DataAtom: atom.P}
+			p.AppendChild(&html.Node{Type: html.TextNode, Data: wordsText("na", 40)})
+			n.AppendChild(p)
 		default:
 			return nil, fmt.Errorf("unknown hand-built tree %q", spec.Hand)
 		}
-		ti.top, ti.root = n, n
+		if ti.top == nil {
+			ti.top = n
+		}
+		ti.root = n
 		ti.snap = takeTreeSnap(ti.top)
 		return ti, nil
 	}
